@@ -909,7 +909,9 @@ impl<Front: SocketHandler, L: ListenerHandler> Pipe<Front, L> {
                 );
             }
 
-            if size == 0 && remaining == SocketResult::Closed {
+            // (the end of the stream may come with the last bytes, and the HUP
+            // event may have been consumed before this pipe existed)
+            if remaining == SocketResult::Closed {
                 self.backend_status = match self.backend_status {
                     ConnectionStatus::Normal => ConnectionStatus::WriteOpen,
                     ConnectionStatus::ReadOpen => ConnectionStatus::Closed,
